@@ -11,7 +11,7 @@
 (*   cat  0 = no try/catch anywhere, c > 0 = try/catch around the call     *)
 (*        made by level c-1 (around the action itself when c-1 = d)        *)
 (*   nat  0 = plain JS calls, n > 0 = level n is entered through a native  *)
-(*        re-entry (route rt: getter | map | reenter | renew)              *)
+(*        re-entry (route rt: getter | map | reenter | renew | evalfn)     *)
 (*   lk   limit kind for ck = limit (loop | rec)                           *)
 (* Each plan is EXECUTED with the actions of HostVm.tla (the driver below  *)
 (* only sequences them), so the expected observations of a history - the   *)
@@ -144,10 +144,16 @@ CallJsStep ==
 
 NatRe ==
   \/ /\ pc = "nat2" /\ CallNative(1) /\ Track(0) /\ pc' = "nat3"
-  \/ /\ pc = "nat3"
+  \/ /\ pc = "nat3" /\ plan.rt # "evalfn"
      /\ HostEnterCall(IF plan.rt = "renew" THEN "construct" ELSE "call", IF plan.rt = "map" THEN 3 ELSE 0)
      /\ Track(0) /\ pc' = "nat4"
   \/ /\ pc = "nat4" /\ ResolveJs(RegsOf(Lvl + 1)) /\ Track(Lvl + 1) /\ pc' = "in"
+  \* route evalfn: the `eval` builtin (Eval::perform_eval) is itself an entry with an EXIT_EARLY frame for the
+  \* eval code, which then calls the next level
+  \/ /\ pc = "nat3" /\ plan.rt = "evalfn" /\ HostEnterEval("eval", 1) /\ Track(Prelude) /\ pc' = "ev1"
+  \/ /\ pc = "ev1" /\ PrepareOk /\ Track(0) /\ pc' = "ev2"
+  \/ /\ pc = "ev2" /\ PushTmp(2 + ArgcOf(plan.nat)) /\ Track(0) /\ pc' = "ev3"
+  \/ /\ pc = "ev3" /\ CallJs(ArgcOf(plan.nat), RegsOf(plan.nat)) /\ Track(plan.nat) /\ pc' = "in"
 
 NatStep == NatRe /\ UNCHANGED <<plan, out, nested, hist>>
 
